@@ -70,6 +70,10 @@ func VfC15Sync() {
 	snd.reglSeqHandler.outSeq.Store(n)
 	rcv.reglSeqHandler.highest = n
 	rcv.reglSeqHandler.bitMap = vf.U64()
+	// the priority class has its own arbitrary history on both sides
+	rcv.prioSeqHandler.highest = vf.U32()
+	rcv.prioSeqHandler.bitMap = vf.U64()
+	snd.prioSeqHandler.outSeq.Store(vf.U32())
 	seq, _, _, c, err := snd.Out(false)
 	vf.Assert(err == nil, "out-failed")
 	ci, err := rcv.In(seq, false)
@@ -79,6 +83,14 @@ func VfC15Sync() {
 	vf.Assert(rcv.reglSeqHandler.highest == snd.reglSeqHandler.outSeq.Load(), "invariant-highest")
 	vf.Assert(len(rcv.inKey) == 1 && len(snd.outKey) == 1 && rcv.inKey[0] == snd.outKey[0], "invariant-keys")
 	if n == 0xFFFFFFFF {
+		// both ends restart the priority sequence with the new key
+		vf.Assert(snd.prioSeqHandler.outSeq.Load() == 0, "sender-priority-counter-not-reset")
+		vf.Assert(rcv.prioSeqHandler.highest == 0, "receiver-priority-window-not-reset")
+		// the first priority frame of the new epoch is accepted
+		ps, _, _, pc, perr := snd.Out(true)
+		pci, pierr := rcv.In(ps, true)
+		vf.Assert(perr == nil && pierr == nil && vfKeyID(pc) == vfKeyID(pci), "priority-frame-after-wrap-key")
+		vf.Assert(rcv.Check(ps, true) == nil, "priority-frame-after-wrap-rejected")
 		// a late frame of the previous epoch
 		old := vf.U32()
 		vf.Assume(old >= 0xFFFFFF00)
@@ -86,7 +98,6 @@ func VfC15Sync() {
 		co, err := rcv.In(old, false)
 		vf.Assert(err == nil && vfKeyID(co) == 102, "old-epoch-frame-offered-old-key")
 		vf.Assert(rcv.reglSeqHandler.highest == h && rcv.reglSeqHandler.bitMap == bm, "old-epoch-frame-moved-window")
-		vf.Assert(rcv.prioSeqHandler.highest == 0, "priority-window-not-reset")
 		vf.Reach("wrap")
 	} else {
 		vf.Reach("no-wrap")
